@@ -62,7 +62,11 @@ where
             return;
         }
         let roc = ((val - oldest) / oldest) * T::from(100.0).expect("can convert");
-        debug_assert!(roc.is_finite(), "value must be finite");
+        if !roc.is_finite() {
+            // The base is so close to zero that the rate overflows: keep the previous output,
+            // as for a zero base.
+            return;
+        }
         self.out = Some(roc);
     }
 
